@@ -118,15 +118,20 @@ LookFails(e, look) ==
               \o (IF ImpSeq(o.i) = g THEN <<>> ELSE Fail("lookup.index", <<k>>))])
 
 IsBad(k) == \E bk \in st.bad : KeyEq(bk, k)
-\* what is left of a list of failing components after removing the consequences of earlier reports
-Fresh(fs) == SelectSeq(fs, LAMBDA f : IF f.ks = <<>> THEN st.bad = {} ELSE \E j \in 1..Len(f.ks) : ~IsBad(f.ks[j]))
+(* what is left of a list of failing components after removing the consequences of earlier reports: *)
+(* a whole-dictionary component (no key) counts only while no class diverges; the outcome / result  *)
+(* of an operation only if NONE of its keys is in a diverged class; an entry or a lookup only if    *)
+(* its key is not in a diverged class                                                               *)
+Fresh(fs) == SelectSeq(fs, LAMBDA f : IF f.ks = <<>> THEN st.bad = {}
+                                      ELSE \A j \in 1..Len(f.ks) : ~IsBad(f.ks[j]))
 KeysOf(fs) == UNION {{f.ks[j] : j \in 1..Len(f.ks)} : f \in {fs[h] : h \in 1..Len(fs)}}
-\* reported per failing component: its name, the pool index of the (first) key concerned and the
-\* pool indices of all keys of that key's class
+\* reported per failing component and key concerned: the component's name, the pool index of the
+\* key (0: none / not a pool key) and the pool indices of all keys of that key's class
 ClassOf(k) == SelectSeq([i \in 1..Len(st.pool) |-> i], LAMBDA i : KeyEq(st.pool[i], k))
-FailsOut(fs) == [j \in 1..Len(fs) |->
-                   IF fs[j].ks = <<>> THEN [c |-> fs[j].c, ki |-> 0, cls |-> <<>>]
-                   ELSE [c |-> fs[j].c, ki |-> PoolIdx(fs[j].ks[1]), cls |-> ClassOf(fs[j].ks[1])]]
+FailsOut(fs) == FlattenSeq([j \in 1..Len(fs) |->
+                   IF fs[j].ks = <<>> THEN <<[c |-> fs[j].c, ki |-> 0, cls |-> <<>>]>>
+                   ELSE [h \in 1..Len(fs[j].ks) |->
+                           [c |-> fs[j].c, ki |-> PoolIdx(fs[j].ks[h]), cls |-> ClassOf(fs[j].ks[h])]]])
 
 Report(ev, fs) == PrintT("MISMATCH " \o ToJson([l |-> l, id |-> ev.id, exp |-> [fails |-> FailsOut(fs)]]))
 
@@ -142,11 +147,13 @@ DictStep(ev) ==
         f3 == IF o.t # "dict" THEN Fail("state.not-a-dict", <<>>) ELSE StateFails(x.d, o)
         f4 == IF f3 = <<>> THEN WholeFails(x.d, ev.obs) ELSE <<>>
         f5 == LookFails(x.d, ev.obs.look)
-        fs == Fresh(f1 \o f2 \o f3 \o f4 \o f5)
+        \* when the outcome differs the entries / lookups of all keys of the operation differ as a
+        \* consequence: only the outcome is reported, every key involved counts as diverged
+        fs == IF f1 # <<>> THEN Fresh(f1) ELSE Fresh(f2 \o f3 \o f4 \o f5)
     IN IF x.out = "unspec" THEN st' = [st EXCEPT !.sync = FALSE]
        ELSE /\ IF fs = <<>> THEN TRUE ELSE Report(ev, fs)
             /\ st' = [st EXCEPT !.d = x.d,
-                                !.bad = IF ev.ev = "lit" THEN KeysOf(fs) ELSE st.bad \cup KeysOf(fs)]
+                                !.bad = st.bad \cup KeysOf(f1 \o f2 \o f3 \o f5)]
 \* a literal assignment re-synchronises (also after an operation the specification leaves open)
 LitStep(ev) ==
     LET x == Exp(ev, st.d)
@@ -200,7 +207,7 @@ MemoStep(ev) ==
         key == VList(args)
         ok == ev.out = "ok" /\ Imp(ev.r) = c.r /\ ev.calls = c.m.calls
         tainted == \E bk \in st.badm : KeyEq(bk, key)
-    IN /\ IF ok \/ tainted THEN TRUE ELSE Report(ev, Fail("memoize", <<>>))
+    IN /\ IF ok \/ tainted THEN TRUE ELSE Report(ev, Fail("memoize", args))
        \* after a disagreement follow the implementation's counter, so that one defect is one report
        /\ st' = [st EXCEPT !.c1 = IF ev.fn = "mf" THEN c.m.cache ELSE st.c1,
                            !.c2 = IF ev.fn = "mg" THEN c.m.cache ELSE st.c2,
